@@ -21,6 +21,7 @@ EXPLANATION = (
     "the variables the add-reduction sums (same reaching definitions); R01.6/R01.7 = R02.1/R02.2 because the default interpretation "
     "layers eager over normalize, so unit-elimination and inverse/involution rewrites are steps of eager evaluation. NOT decided: that a rule's arithmetic on values, "
     "alignment and broadcasting are right."
+    ' Added since: R01.8 a Contraction rule moves a reduction into a subset of operands only under distributivity of its own (red_op, bin_op) pair; R01.9 Number and Tensor branches of one substitution rule compute the same formula; R01.10 the einsum kernel of the eager tensor contractions is never given reduced variables no operand mentions; R01.11 a rule registered for ops that carry parameters uses the op instance it receives.'
 )
 ASSUMPTIONS = ["funsorlint/axioms.py", "the Python data model for operator dunders"]
 RULE_TEXT = "one obligation per dunder/method, per table row, per (site, concrete reduction op) pair"
